@@ -433,10 +433,10 @@ package url
 //@   ensures p.opaque ==> (p.p[0] == old(p.p[0])[0:specTrimRHi(old(p.p[0]), " ")] && (forall k int :: 1 <= k && k < len(p.p) ==> p.p[k] == old(p.p[k])))   [C05,C03]
 //@ func (*path).clone
 //@   ensures p == nil ==> result == nil
-//@   ensures p != nil ==> result != nil && fresh(result) && result.opaque == p.opaque && len(result.p) == len(p.p)   [C13]
-//@   ensures p != nil && p.p != nil ==> fresh(result.p) && result.p != nil   [C13]
+//@   ensures p != nil ==> result != nil && fresh(result) && result.opaque == p.opaque && len(result.p) == len(p.p)   [C13,C14]
+//@   ensures p != nil && p.p != nil ==> fresh(result.p) && result.p != nil   [C13,C14]
 //@   ensures p != nil && p.p == nil ==> result.p == nil
-//@   ensures p != nil ==> (forall k int :: 0 <= k && k < len(p.p) ==> result.p[k] == p.p[k])   [C13]
+//@   ensures p != nil ==> (forall k int :: 0 <= k && k < len(p.p) ==> result.p[k] == p.p[k])   [C13,C14]
 //@ func (*path).String
 //@   requires p != nil && (p.opaque ==> len(p.p) >= 1)
 //@   ensures result == pathStr(p)   [C04]
